@@ -25,6 +25,7 @@ def cmd(tool="shell", ins=(), outs=(), tag="", reads=(), failif="", failpt="befo
     c["_failhow"] = "exit 1"         # how a failing body dies: "exit N" or "kill -SIG $$"
     c["_relreads"] = False           # dependency file names the read paths relative to the working directory
     c["_wd"] = ""                    # working-directory attribute (sandbox-relative directory), "" = not set
+    c["_multirule"] = False          # Makefile-style dependency file with one rule per read path (+ a continuation line)
     return c
 
 def sigx_of(name, c, idx):
@@ -34,7 +35,7 @@ def sigx_of(name, c, idx):
     if c["_signature"]:
         return dict(explicit=c["_signature"])
     # the argument vector is an injective function of these fields
-    return dict(tag=c["tag"], reads=c["reads"], failif=c["failif"], failpt=c["failpt"], failhow=c["_failhow"], depsok=c["depsok"], idx=idx, keep=c["keep"], rel=c.get("_relreads", False), wd=c.get("_wd", ""),
+    return dict(tag=c["tag"], reads=c["reads"], failif=c["failif"], failpt=c["failpt"], failhow=c["_failhow"], depsok=c["depsok"], idx=idx, keep=c["keep"], rel=c.get("_relreads", False), wd=c.get("_wd", ""), multi=c.get("_multirule", False),
                 extra=c["_extra"], env=c["_env"], depstyle=c["_depstyle"] if c["reads"] else "", depfmt=c["_depfmt"] if c["reads"] else "",
                 inherit=c["_inherit_env"])
 
@@ -78,7 +79,12 @@ def deps_bytes(c, nodes, abs_prefix):
         b = b"\x00verif\x00" + b"".join(b"\x10" + p.encode("latin-1") + b"\x00" for p in paths)
         if not c["depsok"]: b = b[:-1] if paths else b"\x10x"       # unterminated last operand
         return b
-    txt = "x: " + " ".join(makefile_escape(p) for p in paths) + "\n"
+    if c.get("_multirule") and len(paths) >= 1:
+        # one rule per path, the first one with a continuation line; later rules name other targets
+        esc = [makefile_escape(p) for p in paths]
+        txt = "x: \\\n  " + esc[0] + "\n" + "".join("y%d: %s\n" % (i, e) for i, e in enumerate(esc[1:], 1))
+    else:
+        txt = "x: " + " ".join(makefile_escape(p) for p in paths) + "\n"
     if not c["depsok"]: txt = "x " + txt.replace(":", "")           # missing colon: "x dep dep" is malformed
     return txt.encode("latin-1")
 
